@@ -126,6 +126,11 @@ C13_HandOverHasSource(s) ==
                                               LET id == s.orders[k].shards[q] IN
                                               HasShard(s, id) /\ ShardOf(s, id).status = SCompleted /\ ShardOf(s, id).sp = m.from
 
+\* "... its income stops": a provider that stores nothing (any more) earns nothing and has no stored bytes on its market account
+C11_IncomeStops(s) ==
+    \A i \in 1..Len(s.workers) : LET w == s.workers[i] IN
+        CompletedShardsOf(s, w.a) = <<>> => (w.storage = 0 /\ w.income = 0)
+
 \* "when a model's last shard goes, the order and the data model disappear too": no fully stored order outlives its data
 \* model (an order is a reference to the model it stored a version of: one without a model is a dangling reference)
 C11_OrderGoesWithModel(s) ==
